@@ -43,10 +43,43 @@ def claimed (cfg : Cfg) (hdr : Hdr) : List Backend :=
     | some c => [c]
     | none => cfg.backends
 
-/-- Verdict on one room API request.  `wellFormed` = JSON content type and a body within the
-size limit (otherwise only "not accepted" is required). -/
-def Judge.observeReq (mac : Mac) (cfg : Cfg) (ref : Option Ref) (wellFormed : Bool) (r : Req) (impl : Resp) : String :=
-  let cands := (claimed cfg r.hdr).filter fun b => stmtChecksum mac b.secret r.random r.body == r.checksum
+/-! ### "the backend the request claims to come from", for a header that is a plain URL
+
+Written from the meaning of a backend URL, not from the lookup code: a URL belongs to a backend iff
+the backend URL's components — scheme, (empty), host, path segments, i.e. the pieces between the
+slashes — are the leading components of the URL.  `http://h/cloud2/x` has the components
+`http:`, ``, `h`, `cloud2`, `x`; it lies under `http://h/cloud2/` and not under `http://h/cloud/`. -/
+
+/-- The pieces between the slashes. -/
+def splitSlash : List Char → List (List Char)
+  | [] => [[]]
+  | c :: cs =>
+    if c = '/' then [] :: splitSlash cs else
+    match splitSlash cs with
+    | s :: ss => (c :: s) :: ss
+    | [] => [[c]]
+
+/-- One trailing slash is not a component. -/
+def stripSlash (u : List Char) : List Char := if endsSlash u then u.dropLast else u
+
+def components (u : List Char) : List (List Char) := splitSlash (stripSlash u)
+
+/-- `u` lies under the backend URL `b`. -/
+def under (b u : List Char) : Bool := (components b).isPrefixOf (components u)
+
+/-- The configured backends a URL belongs to (at most one unless backend URLs are nested). -/
+def owners (es : List Entry) (u : List Char) : List Backend :=
+  (es.filter fun e => under e.url u).map (·.backend)
+
+/-- `claimed` when the header value is given as a URL. -/
+def claimedUrl (cfg : Cfg) (es : List Entry) (value : List Char) : List Backend :=
+  if value.isEmpty then claimed cfg .absent else owners es value
+
+/-- Verdict on one room API request.  `claimedBy` = the backends the request may be taken to come from;
+`wellFormed` = JSON content type and a body within the size limit (otherwise only "not accepted" is
+required). -/
+def Judge.observeReqOf (mac : Mac) (claimedBy : List Backend) (ref : Option Ref) (wellFormed : Bool) (r : Req) (impl : Resp) : String :=
+  let cands := claimedBy.filter fun b => stmtChecksum mac b.secret r.random r.body == r.checksum
   let accepted := impl.status == 200 || !impl.events.isEmpty
   if accepted && cands.isEmpty then "violated:accepted-without-matching-checksum"
   else if impl.events.any (fun e => !(cands.any fun b => b.id == e.backend)) then "violated:event-for-another-backend"
@@ -55,16 +88,20 @@ def Judge.observeReq (mac : Mac) (cfg : Cfg) (ref : Option Ref) (wellFormed : Bo
     | none => "ok"
     | some rf =>
       let unchanged := r.random == rf.random && r.body == rf.body && r.checksum == rf.checksum &&
-        (claimed cfg r.hdr).any (fun b => b.secret == rf.secret)
+        claimedBy.any (fun b => b.secret == rf.secret)
       -- the same bytes under the same checksum, only the random/body boundary moved
       let shifted := r.random ++ r.body == rf.random ++ rf.body && r.checksum == rf.checksum &&
-        (claimed cfg r.hdr).any (fun b => b.secret == rf.secret)
+        claimedBy.any (fun b => b.secret == rf.secret)
       if unchanged then "ok"
       else if !impl.events.isEmpty then "violated:changed-request-reached-clients"
       else if impl.status != 403 then
         (if shifted then s!"violated:boundary-shifted-request-not-403:status={impl.status}"
          else s!"violated:changed-request-not-403:status={impl.status}")
       else "ok"
+
+/-- The claim taken from the op's token (compat modes, header values that are not plain URLs). -/
+def Judge.observeReq (mac : Mac) (cfg : Cfg) (ref : Option Ref) (wellFormed : Bool) (r : Req) (impl : Resp) : String :=
+  Judge.observeReqOf mac (claimed cfg r.hdr) ref wellFormed r impl
 
 /-- Number of random bytes a random string stands for: a hex string encodes half its length
 (the statement's "at least 32 bytes" is about the random, not about its spelling). -/
